@@ -77,6 +77,21 @@ fn finish_one_running(q: &Queue, running: &mut Vec<(String, Pending)>, name: &st
     }
 }
 
+/// Pending entries (time, name) read from the queue's key-value store.
+fn pending_keys(storage: &StorageSystem, ns: &Ident) -> Vec<(u128, String)> {
+    let Ok(store) = storage.open(ns) else { return vec![] };
+    let scope = Ident::from_str_or_replace("pending");
+    let mut out = Vec::new();
+    for k in store.keys(Some(scope.as_ref()), "").unwrap_or_default() {
+        if let Some((ts, name)) = k.as_str().split_once('-') {
+            if let Ok(ts) = ts.parse::<u128>() {
+                out.push((ts, name.to_string()));
+            }
+        }
+    }
+    out
+}
+
 fn now_ms() -> u128 {
     std::time::SystemTime::now().duration_since(std::time::UNIX_EPOCH).map(|d| d.as_millis()).unwrap_or(0)
 }
@@ -252,8 +267,39 @@ fn run_queue(disk: bool, ops: &[QOp]) -> Outcome {
             QOp::Reschedule { sel, ts } => {
                 if let Some(idx) = crate::ops::pick::<()>(*sel, running.len()) {
                     let name = running[idx].1.name.clone();
-                    if pending.iter().any(|p| p.name == name) {
-                        continue; // would create two pending entries of one name
+                    if let Some(ppos) = pending.iter().position(|p| p.name == name) {
+                        // A follow-up of the same name was scheduled while this task ran (a change was committed in the
+                        // meantime). Re-scheduling the running task must keep the earlier of the two times: the follow-up
+                        // stays pending at its own time (krill keeps both entries) or the two are merged at the earlier
+                        // time. The model does not follow two pending entries of one name any further: last step of the case.
+                        let old_ts = pending[ppos].ts;
+                        let key = running[idx].0.clone();
+                        let now = now_ms();
+                        let ts_ms = ts.map(|o| (now as i128 + o as i128 * 1000) as u128);
+                        let ident = Ident::from_str_or_replace(&key).into_owned();
+                        match guarded(|| q.reschedule_running_task(&ident, ts_ms)) {
+                            Err(c) => return viol("crash", &super::crash_key(&c.what), c.what),
+                            Ok(Err(e)) => return viol("c09-reschedule", "running-task-refused", format!("op #{i}: {e}")),
+                            Ok(Ok(())) => {}
+                        }
+                        let entries: Vec<u128> = pending_keys(&storage, ns).into_iter().filter(|(_, n)| *n == name).map(|(t, _)| t).collect();
+                        let new_ts = ts_ms.unwrap_or(now);
+                        match entries.iter().min() {
+                            None => return viol("c09-reschedule", "follow-up-and-task-lost", format!("op #{i}: after re-scheduling running task {key} while a task of the same name was pending at {old_ts}, nothing of that name is pending")),
+                            Some(min) if *min > old_ts => {
+                                return viol(
+                                    "c09-reschedule",
+                                    "earlier-follow-up-lost",
+                                    format!("op #{i}: task {name} was pending at {old_ts} (scheduled while a task of that name was running); the running one was re-scheduled to {new_ts}; now the earliest pending entry of that name is at {min}: the earlier of the two times was not kept (entries {entries:?})"),
+                                )
+                            }
+                            Some(_) => {}
+                        }
+                        classes.insert("reschedule_with_pending_follow_up".into());
+                        let _ = std::fs::remove_dir_all(&dir);
+                        let mut cl: Vec<String> = classes.into_iter().collect();
+                        cl.push(if disk { "queue:disk".into() } else { "queue:memory".into() });
+                        return Outcome::Pass { nontrivial: true, classes: cl, size: i + 1 };
                     }
                     let key = running[idx].0.clone();
                     let now = now_ms();
